@@ -404,6 +404,10 @@ func TestVerifC19(t *testing.T) {
 	}
 	var rc c19Case
 	if r.LoadReplay(&rc) {
+		if len(rc.Corpus.Fracs) == 0 { // a replay artefact of the proxy add-on: nothing to do here
+			r.Finish(t, "fault_enumeration", "replay", nil, nil)
+			return
+		}
 		e.run(rc.Corpus, prepare(rc.Corpus), rc.Req, &rc)
 		r.Finish(t, "fault_enumeration", "replay", nil, nil)
 		return
